@@ -266,6 +266,32 @@ def one_family(ev, mods, imps, s, o, acc, fid, mono_edges):
         acc.count("mono_pairs")
 
 
+def big_families(rnd, acc):
+    """Magnitudes: 1000+ imports between subject and object (33 x 33 and more), a module with 250-400 importers; the laws
+    are checked on the batch and after one more import is added."""
+    k = rnd.choice([32, 33, 40])
+    a = [f"r.a.m{i:02d}" for i in range(k)]
+    b = [f"r.b.t{i:02d}" for i in range(k)]
+    mods = ["r", "r.a", "r.b", "r.c", "r.zz_tool", "r.hub"] + a + b
+    imps = [(x, y) for x in a for y in b]
+    if rnd.random() < 0.7:
+        imps.append((rnd.choice(a), "r.c"))
+    if rnd.random() < 0.5:
+        imps.append(("r.zz_tool", rnd.choice(b)))
+    imps = sorted(set(imps))
+    ev = build(mods, imps)
+    one_family(ev, mods, imps, ("named", "r.a"), ("named", "r.b"), acc, "big1", [(a[-1], "r.c"), ("r.c", b[0])])
+    one_family(ev, mods, imps, ("sub", "r.a"), ("sub", "r.b"), acc, "big2", [("r.zz_tool", b[-1])])
+    # a hub with many importers from one package, plus (perhaps) one from outside
+    n = rnd.choice([255, 256, 257, 400])
+    imp_mods = [f"r.app.m{i:03d}" for i in range(n + 1)]
+    mods2 = ["r", "r.app", "r.hub", "r.zz_tool", "r.aa_tool"] + imp_mods
+    imps2 = [(m, "r.hub") for m in imp_mods[:n]] + ([("r.zz_tool", "r.hub")] if rnd.random() < 0.7 else [])
+    ev2 = build(mods2, sorted(imps2))
+    one_family(ev2, mods2, sorted(imps2), ("named", "r.hub"), ("named", "r.app"), acc, "big3", [(imp_mods[n], "r.hub"), ("r.aa_tool", "r.hub")])
+    acc.count("big_families")
+
+
 def source_monotonicity(spec, acc):
     """Adding an import (here: appending an import statement to a scanned file) never turns a passing
     'should' into a failing one nor a failing 'should not' into a passing one."""
@@ -371,6 +397,8 @@ def exhaustive(spec, acc):
 
 def randomised(spec, acc):
     rnd = random.Random(spec["seed"])
+    for _ in range(1 if spec["n"] < 2000 else 6):
+        big_families(rnd, acc)
     n = 0
     while n < spec["n"]:
         mods = random_tree(rnd, 7, 12)
@@ -454,6 +482,8 @@ def floors(acc, tier):
     for law in ("law_duality", "law_negation", "law_decomposition", "law_alias", "law_monotonicity"):
         if acc.counters[law] < 1000:
             why.append(f"{law}: only {acc.counters[law]} instances checked")
+    if acc.counters["big_families"] < 3:
+        why.append("too few families on big architectures (1000+ imports, 250+ importers)")
     if acc.counters["regex_families_with_reused_rule_objects"] < 30:
         why.append(f"regex families with re-used rule objects: {acc.counters['regex_families_with_reused_rule_objects']}")
     if acc.counters["source_monotonicity_second_from_import_of_a_package"] < 10:
